@@ -17,8 +17,10 @@ Names == {"@a", "@b", "@c"}
 Root == "root"
 Schemas == Names \cup {Root}
 None == "-"
-VARIABLES given, refs, par
-vars == <<given, refs, par>>
+\* form: how a reference is written - a property that is a type shortcut, an array item, a member of an or list, a rule set with a type rule
+\* (the last two only where the references form no cycle: a type reached twice through such lists is the recorded 1303 finding of GenGraph)
+VARIABLES given, refs, par, form
+vars == <<given, refs, par, form>>
 
 SortedSeq(S) == SelectSeq(Ord, LAMBDA n : n \in S)
 Wants(s) == refs[s] \cup (IF par[s] = None THEN {} ELSE {par[s]})
@@ -85,10 +87,13 @@ RefChoices == {r \in [Schemas -> SUBSET Names] :
 \* (a type given to itself is part of the mesh protocol of GenGraph)
 GivenChoices == {g \in [Schemas -> SUBSET Names] :
                    (\A n \in Names : n \notin g[n]) /\ (~Full => g["@c"] = {})}
-Init == given \in GivenChoices /\ refs \in RefChoices /\ par \in ParChoices
+RStep(S) == S \cup UNION {refs[t] : t \in S}
+RefAcyclic == \A n \in Names : n \notin RStep(RStep(RStep(refs[n])))
+Init == /\ given \in GivenChoices /\ refs \in RefChoices /\ par \in ParChoices
+        /\ form \in (IF RefAcyclic THEN {"prop", "item", "orlist", "ruleset"} ELSE {"prop", "item"})
 Next == UNCHANGED vars
 Spec == Init /\ [][Next]_vars
 SetSeq(f) == [s \in Schemas |-> SortedSeq(f[s])]
-Emit == PrintT("@@CASE " \o ToJson([given |-> SetSeq(given), refs |-> SetSeq(refs), par |-> par, want |-> Want, lacking |-> SortedSeq(Lacking)]))
+Emit == PrintT("@@CASE " \o ToJson([given |-> SetSeq(given), refs |-> SetSeq(refs), par |-> par, form |-> form, want |-> Want, lacking |-> SortedSeq(Lacking)]))
 EmitAll == Emit
 ====================================================================================
